@@ -195,6 +195,10 @@ def rewrite_all_references(
     all_known = set(known_components).union(looped_ids)
     _ = FlowIR.discover_reference_strings(value, owner_component_stage, all_known, out_map)
 
+    # VV: what each reference of @value becomes, they are all substituted in ONE pass below: the text that is inserted
+    #     for one reference (e.g. the value of a binding) must not be rewritten again on behalf of another reference
+    substitutions = {}
+
     for match in out_map:
         rewrite = rewrite_reference(out_map[match], binding_values, import_to_stage, owner_component_stage)
 
@@ -218,15 +222,18 @@ def rewrite_all_references(
                     match, rewrite, value
                 ))
 
-        # VV: only rewrite whole references, `step:output` must not match inside an already rewritten
-        # `stage1.0#step:output` (`\b` is not enough because `.`, `#` and `-` may be part of a reference)
-        pattern = pattern_whole_reference(match)
+        substitutions[match] = rewrite
+
+    if substitutions:
+        # VV: only rewrite whole references, `step:output` must not match inside `stage1.0#step:output`
+        # (`\b` is not enough because `.`, `#` and `-` may be part of a reference)
+        pattern = pattern_whole_reference_any(substitutions)
 
         try:
             # VV: a string may use the same reference more than once (e.g. `x:output vs x:output`), rewrite them all
-            value = pattern.sub(lambda m, rewrite=rewrite: rewrite, value)
+            value = pattern.sub(lambda m: substitutions[m.group(0)], value)
         except Exception:
-            flowirLogger.critical("Failed to res.sub(\"%s\", \"%s\", \"%s\"" % (pattern.pattern, rewrite, value))
+            flowirLogger.critical("Failed to res.sub(\"%s\", \"%s\", \"%s\"" % (pattern.pattern, substitutions, value))
             raise
 
     return value
